@@ -470,6 +470,93 @@ func pathOfHops(hs []hop) *vpath {
 	return mkPath(l)
 }
 
+// spellingsOf lists every spelling of an AS number the grammar admits: decimal when it fits 32
+// bits, the colon form in lower case and (when it has letters) upper case; canonical first.
+func spellingsOf(a uint64) []string {
+	lo := fmt.Sprintf("%x:%x:%x", a>>32&0xffff, a>>16&0xffff, a&0xffff)
+	var l []string
+	if a <= 1<<32-1 {
+		l = append(l, fmt.Sprintf("%d", a))
+	}
+	l = append(l, lo)
+	if up := strings.ToUpper(lo); up != lo {
+		l = append(l, up)
+	}
+	return l
+}
+
+// bigValues: predicate-judged stream over the extremes of the value ranges — decimal ASes with
+// 5, 6 and 10 digits, the largest 32-bit and 48-bit AS, ISD 65535, interface 65535 — against
+// wildcard and literal predicates in every spelling.
+func (g *eng) bigValues() {
+	bigAS := []uint64{65535, 65536, 99999, 100000, 131072, 4200000001, 1<<32 - 1, 1 << 32, 1<<48 - 1}
+	bigISD := []uint16{1, 65535}
+	bigIf := []uint64{1, 65535}
+	any0 := &ex{op: "h", p: pred{}}
+	star0 := &ex{op: "star", a: any0}
+	cat := func(xs ...*ex) *ex {
+		r := xs[0]
+		for _, x := range xs[1:] {
+			r = &ex{op: "cat", a: r, b: x}
+		}
+		return r
+	}
+	for ai, a := range bigAS {
+		other := bigAS[(ai+1)%len(bigAS)]
+		// paths: the AS as source, transit and destination; all ISD/interface extremes
+		var paths []*vpath
+		for _, isd := range bigISD {
+			for _, f := range bigIf {
+				for _, f2 := range bigIf {
+					paths = append(paths,
+						mkPath([]pif{{isd, a, f}, {1, 5, f2}}),
+						mkPath([]pif{{1, 5, f2}, {isd, a, f}}),
+						mkPath([]pif{{1, 5, 1}, {isd, a, f}, {isd, a, f2}, {65535, other, 2}}),
+						mkPath([]pif{{isd, a, f}, {isd, other, f2}, {isd, other, f}, {1, a, f2}}))
+				}
+			}
+		}
+		paths = append(paths, mkPath([]pif{{1, other, 1}, {1, 5, 2}}), mkPath(nil))
+		var preds []pred
+		wild := asLit{kind: 1, ok: true}
+		for _, isd := range []uint64{0, 1, 65535} {
+			preds = append(preds, pred{isd: isd}, pred{isd: isd, as: wild},
+				pred{isd: isd, as: wild, nif: 1, i0: 0}, pred{isd: isd, as: wild, nif: 2},
+				pred{isd: isd, as: wild, nif: 1, i0: 65535}, pred{isd: isd, as: wild, nif: 2, i0: 65535},
+				pred{isd: isd, as: wild, nif: 2, i1: 65535})
+			for _, sp := range spellingsOf(a) {
+				l := asLit{2, a, sp, true}
+				preds = append(preds, pred{isd: isd, as: l}, pred{isd: isd, as: l, nif: 1, i0: 65535},
+					pred{isd: isd, as: l, nif: 1, i0: 0}, pred{isd: isd, as: l, nif: 2, i0: 0, i1: 65535},
+					pred{isd: isd, as: l, nif: 2, i0: 1, i1: 0})
+			}
+		}
+		for _, p := range preds {
+			hp := &ex{op: "h", p: p}
+			shapes := []*ex{cat(star0, hp, star0), cat(hp, any0), cat(any0, hp, any0), cat(hp, hp),
+				{op: "star", a: hp}}
+			if g.e.Thorough() {
+				shapes = append(shapes, cat(any0, hp), cat(hp, hp, hp), &ex{op: "plus", a: hp},
+					cat(&ex{op: "opt", a: hp}, any0, star0))
+			}
+			for _, x := range shapes {
+				g.seqCase(x, x.text(nil), paths, "big")
+			}
+		}
+	}
+	// the plain wildcard expressions of the documentation over all of them at once
+	var all []*vpath
+	for _, a := range bigAS {
+		all = append(all, mkPath([]pif{{1, a, 1}, {65535, a, 65535}}),
+			mkPath([]pif{{65535, a, 65535}, {1, 5, 1}, {1, 5, 2}, {2, a, 3}}))
+	}
+	for _, x := range []*ex{star0, cat(any0, any0), cat(any0, any0, any0), {op: "plus", a: any0},
+		cat(&ex{op: "h", p: pred{isd: 1, as: asLit{kind: 1, ok: true}}}, star0),
+		cat(&ex{op: "h", p: pred{isd: 65535, as: asLit{kind: 1, ok: true}, nif: 2, i0: 0, i1: 65535}}, star0)} {
+		g.seqCase(x, x.text(nil), all, "big")
+	}
+}
+
 // evalSeq runs the real NewSequence(text).Eval(paths) and returns the mask of kept paths.
 func evalSeq(text string, paths []*vpath) (string, error) {
 	seq, err := pathpol.NewSequence(text)
@@ -802,7 +889,7 @@ func main() {
 		"forms and spellings) as `0* P 0*` x all 2-hop paths (quick: a seeded third) + random 3/4-hop paths; (b) all expressions with <= 2 operators " +
 		"(quick: a seeded sample; thorough: all) over 6 predicates x all interface lists of length 0,2,4 over 4 interfaces; " +
 		"(c) random expressions of depth <= 4 with random redundant parentheses/blanks x random paths of 0,2,3,4 hops and " +
-		"odd interface lists; (d) random ACLs / policies (valid default entry; a few without, for the panic branch) x random " +
+		"odd interface lists; (c') extremes: ASes 65535, 65536, 99999, 100000, 131072, 4200000001, 2^32-1, 2^32, 2^48-1 (every spelling), ISD 65535, interface 65535 as source/transit/destination against wildcard and literal predicates in 5 (thorough: 9) expression shapes; (d) random ACLs / policies (valid default entry; a few without, for the panic branch) x random " +
 		"paths; one op = one expression (ACL) against a batch of paths; non-trivial = at least one path kept; predicate: " +
 		"independent matcher over the hop list, order-preserving sub-list"
 
@@ -890,6 +977,8 @@ func main() {
 		}
 		g.seqCase(x, x.text(r), paths, "rand")
 	}
+	// (c') extremes of the value ranges
+	g.bigValues()
 	// literals the statement gives no meaning to (tie only): out-of-range decimal / hex groups, AS 0 in colon form
 	for _, t := range []string{"4294967296", "281474976710656", "10000:0:0", "0:0:12345", "0:0:0", "1:0:0", "0:1:0", "4294967295", "0:ffff:ffff", "0:FFFF:ffff"} {
 		v, err := addr.ParseAS(t)
